@@ -111,11 +111,16 @@ class Src:
         return {"rules": []}
 
 
-def scenarios(repo_guard_cls, loader_mod) -> dict:
+SCENARIOS = ["check_plain", "check_in_loop", "start_stop_plain", "start_initial_in_loop_stop_none", "start_initial_plain_stop_none"]
+
+
+def scenarios(repo_guard_cls, loader_mod, only: str | None = None) -> dict:
     """run the entry points in every calling context once; returns {scenario: {"roots": [...], "progs": {tid: ops}}}"""
     out = {}
 
     def trace(name, fn):
+        if only is not None and name != only:
+            return
         tr = Tracer()
         tr.role[REAL_THREADING.get_ident()] = 0
         undo = install(loader_mod, tr)
@@ -148,3 +153,18 @@ def scenarios(repo_guard_cls, loader_mod) -> dict:
     trace("start_initial_in_loop_stop_none", lambda m: start_stop(m, True, True, None))
     trace("start_initial_plain_stop_none", lambda m: start_stop(m, False, True, None))
     return out
+
+
+if __name__ == "__main__":
+    # child process: trace ONE scenario (the parent applies a timeout — a scenario may deadlock on a broken tree)
+    import importlib
+    import json
+    import os
+    import sys
+    repo = os.environ.get("RBACX_REPO", "/repo")
+    sys.path.insert(0, os.path.join(repo, "src"))
+    import logging
+    logging.disable(logging.CRITICAL)
+    loader = importlib.import_module("rbacx.policy.loader")
+    from rbacx.core.engine import Guard
+    print(json.dumps(scenarios(Guard, loader, only=sys.argv[1])))
